@@ -26,7 +26,7 @@ Proof.
 Qed.
 Lemma updN_const_eq {A} (g : A -> A) : forall (l : list A) i b, nthN l i = Some b -> setN l i (g b) = updN l i g.
 Proof.
-  intros l i b. unfold nthN, setN, updN. generalize (N.to_nat i). clear i.
+  intros l i b. unfold setN. rewrite nthN_nth_error, !updN_upd_nat. generalize (N.to_nat i). clear i.
   induction l as [|x l IH]; intros [|n] H; cbn [nth_error upd_nat] in *; try discriminate.
   - inversion H. reflexivity.
   - f_equal. apply IH. exact H.
@@ -84,7 +84,7 @@ Section SlashingsRefine.
       assert (Hi : i < N.of_nat (length (validators st))) by (apply Hl; left; reflexivity).
       assert (Hlk : exists fl, nthN flats i = Some fl /\ fl_effective_balance fl = eff_bal st i).
       { pose proof (flats_eff flats (validators st) Hrel (N.to_nat i)) as He.
-        unfold eff_bal, nthN. destruct (nth_error (validators st) (N.to_nat i)) as [v|] eqn:Hv.
+        unfold eff_bal. rewrite !nthN_nth_error. destruct (nth_error (validators st) (N.to_nat i)) as [v|] eqn:Hv.
         2:{ apply nth_error_None in Hv. lia. }
         destruct (nth_error flats (N.to_nat i)) as [fl|]; [|discriminate]. inversion He as [He'].
         exists fl. split; reflexivity || exact He'. }
@@ -156,11 +156,11 @@ Section SlashingsRefine.
     assert (Hdiv : q * adj / total <= q).
     { apply N.div_le_upper_bound; [lia|]. nia. }
     rewrite mul64_fine by nia.
-    unfold decrease_balance_go, nthN. destruct (nth_error bals (N.to_nat k)) as [b|] eqn:Hb.
+    unfold decrease_balance_go. rewrite nthN_nth_error. destruct (nth_error bals (N.to_nat k)) as [b|] eqn:Hb.
     2:{ apply nth_error_None in Hb. lia. }
     set (pen := q * adj / total * EFFECTIVE_BALANCE_INCREMENT c).
     replace (if pen <=? b then b - pen else 0) with (b - pen) by (destruct (N.leb_spec pen b); lia).
-    rewrite (updN_const_eq (fun b => b - pen) bals k b) by exact Hb.
+    rewrite (updN_const_eq (fun b => b - pen) bals k b) by (rewrite nthN_nth_error; exact Hb).
     apply IH'. apply updN_length.
   Qed.
 
